@@ -236,8 +236,11 @@ pub fn generate_c14(rng: &mut Rng, idx: usize, _tier: Tier) -> CaseOut {
     let repo = gen_repo(rng, idx, true, None);
     let base = RunSpec { files: repo.files.iter().map(|(p, _, r)| (p.clone(), r.text.clone())).collect(), globs: vec!["**".into()], ..Default::default() };
     // subset of the seven validators, systematically by index
-    let mask = idx % 128;
-    let enable = (idx / 128) % 2 == 1;
+    // (every 32nd case names all seven, every other 32nd none: the extremes must not be left to
+    // the sweep, whose index 127 coincides with the rejected-flag cases below; 5 % 4 == 1, so
+    // these runs go through the real binary and main.rs)
+    let mask = if idx % 32 == 5 { 127 } else if idx % 32 == 23 { 0 } else { idx % 128 };
+    let enable = if idx % 32 == 5 { (idx / 32) % 2 == 1 } else { (idx / 128) % 2 == 1 };
     let mut subset: Vec<String> = (0..7).filter(|k| mask & (1 << k) != 0).map(|k| VALIDATOR_NAMES[k].to_string()).collect();
     if rng.chance(1, 4) && !subset.is_empty() {
         // repeating a flag composes as set union
